@@ -19,7 +19,9 @@ CONSTANT Lvl
 Card(n, k, p) == [n |-> n, k |-> k, p |-> p, d |-> 1, tr |-> 0, bc |-> "", hlen |-> 0, flen |-> 0]
 Surfs == << Card(1, "so", <<3>>), Card(2, "so", <<5>>),
             Card(11, "px", <<0>>), Card(12, "py", <<1>>),
-            Card(21, "s", <<1, 0, 0, 1>>), Card(31, "pz", <<0>>), Card(32, "c/z", <<0, 1, 2>>) >>
+            Card(21, "s", <<1, 0, 0, 1>>), Card(31, "pz", <<0>>), Card(32, "c/z", <<0, 1, 2>>),
+            (* a slab: "-41 42" turns a one-operand cell into a three-operand one *)
+            Card(41, "pz", <<1>>), Card(42, "pz", <<-2>>) >>
 
 Tr(o, m) == [o |-> o, m |-> m]
 IdM == <<1,0,0, 0,1,0, 0,0,1>>
@@ -49,9 +51,12 @@ VARIABLES pc, cells
 Init == pc = "c1" /\ cells = <<>>
 
 (* container 1: always filled with U1 *)
+(* a cell with one operand or with three (cut by a slab); a complemented cell (#n) with a TRCL            *)
+(* may have zero importance                                                                          *)
+Wide(s, wide) == IF wide THEN <<"*", s, S(-41), S(42)>> ELSE s
 C1 == /\ pc = "c1"
-      /\ \E ft \in OptTr, tc \in SmallTr :
-           cells' = << WithTrcl(WithFill(Cell(1, S(-1), 0), 1, ft), tc) >>
+      /\ \E ft \in OptTr, tc \in SmallTr, wide \in BOOLEAN, imp \in {0, 1} :
+           cells' = << [WithTrcl(WithFill(Cell(1, Wide(S(-1), wide), 0), 1, ft), tc) EXCEPT !.imp = imp] >>
       /\ pc' = "c2"
 (* container 2: plain, or filled with U1 again (reuse), or with U3 *)
 C2 == /\ pc = "c2"
@@ -75,8 +80,8 @@ U1 == /\ pc = "u1"
       /\ pc' = "u2"
 (* universe 2 (filler with its own TRCL) and universe 3 *)
 U2 == /\ pc = "u2"
-      /\ \E tc \in SmallTr :
-           cells' = cells \o << WithTrcl(Cell(21, S(-21), 2), tc), Cell(22, <<"C", 21>>, 2),
+      /\ \E tc \in SmallTr, w \in BOOLEAN :
+           cells' = cells \o << WithTrcl(Cell(21, Wide(S(-21), w), 2), tc), Cell(22, <<"C", 21>>, 2),
                                 Cell(31, <<"*", S(-31), S(32)>>, 3), Cell(32, <<"C", 31>>, 3) >>
       /\ pc' = "emit"
 UsedU == { cells[i].fill : i \in 1..Len(cells) } \ {0}
